@@ -91,6 +91,48 @@ pub fn stale_slot_script(rng: &mut Rng) -> std::collections::VecDeque<String> {
     out
 }
 
+/// Scripted construction (needs the `const0` plan: every key hashes to 0, so insertion order = probe
+/// order) of a 128-bucket table in which the in-place rehash meets an element whose ideal group is
+/// visited EARLIER by the triangular probe but lies LATER in linear order than the group it sits in:
+/// fill to capacity, remove everything except the first `v` visited groups (which are also the first `v`
+/// linear groups) and three elements of the visited group `u > v` that is linear group `v`; the next
+/// insertion finds `growth_left == 0` with at most half the capacity live and rehashes in place; the
+/// survivors are then looked up. `table`: HashTable ops (`insert_unique`/`find`) instead of map ops.
+pub fn chain_rehash_script(table: bool) -> std::collections::VecDeque<String> {
+    let w = hashbrown::verif::GROUP_WIDTH;
+    let n = 128usize;
+    let mask = n - 1;
+    let cap = hashbrown::verif::bucket_mask_to_capacity(mask);
+    let lin: Vec<usize> = hashbrown::verif::probe_positions(0, mask, n / w).iter().map(|p| p / w).collect();
+    let mut out = std::collections::VecDeque::new();
+    let v = match (0..lin.len()).find(|&t| lin[t] != t) {
+        Some(v) => v,
+        None => return out,
+    };
+    let u = match (v + 1..lin.len()).find(|&t| lin[t] == v) {
+        Some(u) if u * w + 3 <= cap => u,
+        _ => return out,
+    };
+    let ins = if table { "TINS" } else { "INS" };
+    let look = if table { "find" } else { "get" };
+    out.push_back(format!("a with_capacity {}", cap));
+    for j in 0..cap {
+        out.push_back(format!("{} {}", ins, j));
+    }
+    let keep = |j: usize| j / w < v || (j / w == u && j % w < 3);
+    for j in 0..cap {
+        if !keep(j) {
+            out.push_back(format!("a remove {}", j));
+        }
+    }
+    out.push_back(format!("{} {}", ins, cap));
+    for j in (0..cap).filter(|&j| keep(j)) {
+        out.push_back(format!("a {} {}", look, j));
+    }
+    out.push_back(format!("a {} {}", look, cap));
+    out
+}
+
 /// First EMPTY/DELETED bucket on the probe sequence of `hash` (tables of at least one group).
 pub fn first_special(ctrl: &[u8], mask: usize, hash: u64) -> Option<(usize, u8)> {
     let w = hashbrown::verif::GROUP_WIDTH;
@@ -165,7 +207,7 @@ pub struct Gen {
 impl Gen {
     pub fn new(seed: u64, universe: u64, profile: &'static str) -> Self {
         let mut rng = Rng::new(seed);
-        let target_buckets = *rng.pick(&[16usize, 16, 32, 32, 64, 128]);
+        let target_buckets = if profile == "table-churn" { *rng.pick(&[32usize, 64, 128, 128, 256]) } else { *rng.pick(&[16usize, 16, 32, 32, 64, 128]) };
         Gen { rng, universe, next_id: 1, profile, phase: 0, fresh_key: 0, target_buckets, variant: profile, flipped: false, script: Default::default() }
     }
     pub fn id(&mut self) -> u64 {
@@ -207,6 +249,10 @@ impl Gen {
     /// Next op line (without the leading `op`), e.g. `a insert 3 7 8 101`.
     pub fn next(&mut self, r: &dyn Runner) -> String {
         if let Some(op) = self.script.pop_front() {
+            if let Some(k) = op.strip_prefix("TINS ") {
+                let id = self.id();
+                return format!("a insert_unique {} {} {}", k, id, 100 + self.rng.below(50));
+            }
             return match op.strip_prefix("INS ") {
                 Some(k) => format!("a {}", self.insert(k.parse().unwrap())),
                 None => op,
